@@ -335,6 +335,16 @@ INPLACE_OPS = {
     "masked_fill_": lambda t, a, b: t.masked_fill_((t if not isinstance(t, PackedTensor) else t.unpack()) > (a % 3), b % 4),
     "setitem": lambda t, a, b: t.__setitem__(0, a % 4) or t,
 }
+def _packed_like(t, rows, a):
+    """a tensor of `rows` rows and t's trailing shape with values < 4, PACKED like t when t is packed (same bits)"""
+    u = t.unpack() if isinstance(t, PackedTensor) else t
+    v = ((torch.arange(rows * max(1, u[0].numel())) + a) % 4).to(torch.uint8).reshape((rows, *u.shape[1:]))
+    return PackedTensor.pack(v, t._bits) if isinstance(t, PackedTensor) else v
+
+
+# copies BETWEEN packed tensors: the same shape, or a single row broadcast to every row of the destination
+INPLACE_OPS["copy_packed_same"] = lambda t, a, b: t.copy_(_packed_like(t, t.shape[0], a))
+INPLACE_OPS["copy_packed_row"] = lambda t, a, b: t.copy_(_packed_like(t, 1, a))
 OPS.update(INPLACE_OPS)
 OPNAMES = sorted(OPS)
 
